@@ -4,7 +4,7 @@ package main
 //
 // Tie lines (model: lean/Lattigo/Model/BGV.lean, `BGV.step`; grammar in lean/Driver/C05.lean):
 //
-//	step t=<t> qs=<q0,..> n=<slots> si=<0|1> rlk=<0|1> op=<name> out=<new|inp|into:REG> a=REG b=ARG  ⇒  REG | REG REG | err
+//	step t=<t> qs=<q0,..> n=<slots> si=<0|1> rlk=<0|1> op=<name> out=<new|inp|inp1|into:REG> a=REG b=ARG  ⇒  REG | REG REG | err
 //	match  t=<t> s0=<s0> s1=<s1>                                                              ⇒  r0 r1   (white-box copy of matchScalesBinary, observed through MatchScalesAndLevel)
 //
 // REG = level/degree/scale/v0,v1,…   (v = slots decoded by the REAL decryptor+decoder with the recorded scale)
@@ -519,6 +519,8 @@ func c05Call(ev *bgv.Evaluator, op string, a *rlwe.Ciphertext, b c05Arg, o c05Ou
 	switch o.mode {
 	case "inp":
 		out = a
+	case "inp1":
+		out = b.reg.ct
 	case "into":
 		out = o.reg.ct
 	}
@@ -742,17 +744,6 @@ func (c *Ctx) c05RandomStep(p *c05Prog) {
 				o = c05Out{mode: "into", reg: p.cts[oi]}
 				target = oi
 				resLevel = min(resLevel, p.cts[oi].level())
-				if !isReg {
-					// guards (behaviours exhibited by dedicated probes): level not lowered / degree truncated
-					if la < p.cts[oi].level() {
-						c.Count("guard:mta_scalar_level")
-						continue
-					}
-					if p.cts[oi].degree() > da {
-						c.Count("guard:mta_scalar_degree")
-						continue
-					}
-				}
 			default:
 				switch c.rng.Intn(4) {
 				case 0:
@@ -765,16 +756,17 @@ func (c *Ctx) c05RandomStep(p *c05Prog) {
 					fresh := bgv.NewCiphertext(s.params, 1+c.rng.Intn(2), dl)
 					o = c05Out{mode: "into", reg: &c05Reg{ct: fresh, want: make([]uint64, s.n)}}
 					resLevel = min(resLevel, dl)
+				case 2:
+					// receiver = second operand (a ciphertext register distinct from op0)
+					if kind == "r" && b.reg.ct != nil {
+						o = c05Out{mode: "inp1"}
+						for k, r := range p.cts {
+							if r == b.reg {
+								target = k
+							}
+						}
+					}
 				}
-				if !isReg && o.mode != "inp" && (op == "add" || op == "sub" || isMul) && (b.kind == "big" || b.kind == "u64" || b.kind == "i64" || b.kind == "int") && sa != 1 {
-					c.Count("guard:scalar_out_scale")
-					o = c05Out{mode: "inp"}
-					resLevel = la
-				}
-			}
-			if op == "sub" && isReg && db > da && sa == sb {
-				c.Count("guard:sub_higher_degree")
-				continue
 			}
 			mb := s.argMsg(b, a)
 			want = make([]uint64, s.n)
@@ -819,8 +811,9 @@ func (c *Ctx) c05RandomStep(p *c05Prog) {
 						if isAcc {
 							continue
 						}
-						if o.mode == "inp" {
+						if o.mode == "inp" || o.mode == "inp1" {
 							o = c05Out{mode: "new"}
+							target = ai
 						}
 					}
 					nb = lmax(nb, lN+12) + 1
@@ -912,7 +905,7 @@ func (c *Ctx) c05RandomStep(p *c05Prog) {
 		res, status := c.c05Step(s, p.ev, p.si, p.rlk, op, a, b, o)
 		p.trace = append(p.trace, op+":"+b.kind+":"+o.mode+":"+status)
 		if status != "ok" {
-			if o.mode == "inp" || o.mode == "into" && o.reg.nb != 0 {
+			if o.mode == "inp" || o.mode == "inp1" || o.mode == "into" && o.reg.nb != 0 {
 				// a failed call may have touched its output: replace the register by a fresh encryption
 				p.cts[target] = c.c05NewCt(s, len(s.qs)-1, 1)
 			}
@@ -948,6 +941,8 @@ func (c *Ctx) c05RandomStep(p *c05Prog) {
 		switch {
 		case o.mode == "inp":
 			p.cts[ai] = nr
+		case o.mode == "inp1":
+			p.cts[target] = nr
 		case op == "mta" || op == "mrta":
 			p.cts[target] = nr
 		default:
